@@ -479,6 +479,8 @@ type c11Case struct {
 	DieAt  int    `json:"die_at"`
 	Seg    Seg    `json:"seg"`
 	What   string `json:"what,omitempty"`
+	// Bridge: the client reaches the scripted server through a bridge subprocess (NewBridge) instead of dialling it
+	Bridge bool `json:"bridge,omitempty"`
 }
 
 // c11One plays one (stream, death offset, segmentation) and judges every receive.
@@ -487,7 +489,14 @@ func c11One(r *fw.Run, srv *RawServer, c *c11Case) {
 	srv.Expect(play)
 	ctx, cancel := context.WithTimeout(context.Background(), 60*time.Second)
 	defer cancel()
-	conn, err := varlink.NewConnection(ctx, srv.Addr)
+	var conn *varlink.Connection
+	var err error
+	if c.Bridge {
+		exe, _ := os.Executable()
+		conn, err = varlink.NewBridgeWithStderr(fmt.Sprintf("exec '%s' --helper bridge unix '%s'", exe, strings.TrimPrefix(srv.Addr, "unix:")), io.Discard)
+	} else {
+		conn, err = varlink.NewConnection(ctx, srv.Addr)
+	}
 	if err != nil {
 		r.Inconclusive("client could not connect to the scripted server: %v", err)
 		// unblock the queued play
@@ -697,6 +706,12 @@ func runC11(r *fw.Run) {
 		for k := 0; k <= len(S); k++ {
 			cases = append(cases, &c11Case{Stream: S, DieAt: k, Seg: segFor(lrng, []int{0, 0, 2, 3}[lrng.Intn(4)], k, bounds), What: whats[i]})
 		}
+		// the same stream through a bridge subprocess: whole, and cut at three places
+		if i%r.Pick(15, 40) == 0 {
+			for _, k := range []int{-1, 0, len(S) / 2, len(S)} {
+				cases = append(cases, &c11Case{Stream: S, DieAt: k, Seg: Seg{}, What: whats[i], Bridge: true})
+			}
+		}
 		r.Distinct("stream_kinds", whats[i])
 		if i%20 == 0 {
 			r.Sample(map[string]interface{}{"kind": whats[i], "stream": string(S), "death_offsets": len(S) + 1})
@@ -711,6 +726,9 @@ func runC11(r *fw.Run) {
 		r.Case(fw.HashBytes(c.Stream)^uint64(c.DieAt+2)*0x9e3779b97f4a7c15^uint64(len(c.Seg.Cuts)), len(c.Stream) > 1)
 		if c.DieAt >= 0 {
 			r.Count("death_offsets", 1)
+		}
+		if c.Bridge {
+			r.Count("streams_played_through_a_bridge", 1)
 		}
 	})
 	// receive into other kinds of out-parameters: a struct and a map (values must be what the frame says)
@@ -779,7 +797,7 @@ func replayC11(r *fw.Run, raw json.RawMessage) {
 func init() {
 	fw.Register(&fw.Engine{
 		ID: "C11", Level: "fault_enumeration",
-		Rule: "reply streams = sequences of valid reply / continues / error frames with generated parameters (number spellings beyond 2^53 and 2^64, exponents, unicode), 50 shape cases (null, {}, non-object values, non-boolean continues, non-string error, the four org.varlink.service errors with good / missing / ill-typed / non-object parameters, case-variant and duplicate members, trailing garbage, invalid UTF-8), byte-level mutants (flips, deleted/inserted bytes and NULs), random bytes, a valid frame followed by a tail without NUL. A case = (stream, server death offset k, segmentation): EVERY k in 0..len(stream) plus 3 partitions of the complete stream (one write, byte-wise, random with pauses). The real Connection calls Send once and receive until the stream ends. Oracle per receive call (model A.3): valid reply => parameters number-exact and Continues iff set; error frame => the dedicated typed error with the right field for the four reserved names, else *varlink.Error with exactly that name and JSON-equal parameters; invalid JSON / wrong shape => some error; stream ended before the NUL => io.ErrUnexpectedEOF; never a panic. Plus all 16 flag words x 3 parameter kinds: forbidden combinations are refused with zero bytes on the wire (barrier call on the same connection), legal ones put exactly the requested members on the wire and never continues. non-trivial = stream longer than one byte / non-zero flag word; distinct by (stream hash, offset, partition). One receive in five passes nil as out parameter (values not wanted): same flags, same errors.",
+		Rule: "reply streams = sequences of valid reply / continues / error frames with generated parameters (number spellings beyond 2^53 and 2^64, exponents, unicode), 50 shape cases (null, {}, non-object values, non-boolean continues, non-string error, the four org.varlink.service errors with good / missing / ill-typed / non-object parameters, case-variant and duplicate members, trailing garbage, invalid UTF-8), byte-level mutants (flips, deleted/inserted bytes and NULs), random bytes, a valid frame followed by a tail without NUL. A case = (stream, server death offset k, segmentation): EVERY k in 0..len(stream) plus 3 partitions of the complete stream (one write, byte-wise, random with pauses). The real Connection calls Send once and receive until the stream ends. Oracle per receive call (model A.3): valid reply => parameters number-exact and Continues iff set; error frame => the dedicated typed error with the right field for the four reserved names, else *varlink.Error with exactly that name and JSON-equal parameters; invalid JSON / wrong shape => some error; stream ended before the NUL => io.ErrUnexpectedEOF; never a panic. Plus all 16 flag words x 3 parameter kinds: forbidden combinations are refused with zero bytes on the wire (barrier call on the same connection), legal ones put exactly the requested members on the wire and never continues. non-trivial = stream longer than one byte / non-zero flag word; distinct by (stream hash, offset, partition). One receive in five passes nil as out parameter (values not wanted): same flags, same errors. A sample of the streams is also played to a client that reaches the scripted server through a bridge subprocess.",
 		Assumptions: []string{"the scripted server reads the complete request frame before it dies, so the client sees an orderly end of stream, not a reset", "frames with case-variant or duplicate members are judged for panics only"},
 		Run:         runC11, Replay: replayC11, CrashIsViolation: true, MinEvals: 1000,
 		QuickTimeout: 15 * time.Minute, ThoroughTimeout: 60 * time.Minute,
